@@ -1,7 +1,9 @@
 """C11 -- spin-orbit evolution rates conserve energy and (at zero obliquity) angular momentum.
 
-E1 lattice.  One *case* fixes entry point, rheology, l_max, truncation, obliquity slot, mass pair, MOI factor and orbit;
-inside a case the complete grid (spin ratios) x e is executed with scalar inputs and through array inputs.
+E1 lattice.  A *configuration* is (entry point, rheology, mass pair, l_max, truncation, obliquity slot, MOI factor, separation);
+inside a configuration the complete grid (spin ratios) x e is executed with scalar inputs and through array inputs.  The worker
+pool is fed one bundle (entry, rheology, mass pair) per task (TidalPy's compliance helpers cannot be cached by numba; bundling
+along the rheology keeps the JIT cost per worker small).
 
 Entry points: 'single' = quick_tidal_dissipation(..., calculate_orbit_spin_derivatives=True);
               'dual'   = quick_dual_body_tidal_dissipation(...);
@@ -9,12 +11,14 @@ Entry points: 'single' = quick_tidal_dissipation(..., calculate_orbit_spin_deriv
                          semia_eccen_derivatives(_dual)} fed with the potential derivatives of calculate_orbit_spin_derivatives=False runs.
 
 Oracles (nothing but Kepler's third law and the definitions of orbital energy / angular momentum is used):
-  energy            G m1 m2 /(2 a^2) da/dt + sum_i C_i spin_i dspin_i/dt + sum_i heating_i = 0
+  energy            G m1 m2 /(2 a^2) da/dt + sum_i C_i spin_i dspin_i/dt + sum_i heating_i = 0          [energy-balance]
   angular momentum  (obliquity None / 0)   L (da/dt /(2a) - e de/dt /(1-e^2)) + sum_i C_i dspin_i/dt = 0,
-                    L = m1 m2/(m1+m2) sqrt(G (m1+m2) a (1-e^2))
-  both relative to the sum of the absolute terms (and never below the sum of |mode terms| of the reference mode table);
-  de/dt at e = 0 is finite and equals 0 (scalar and array input);
-  array results equal the element-wise scalar calls;  bare: combined function == separate functions, dual(…, 0, 0) == single.
+                    L = m1 m2/(m1+m2) sqrt(G (m1+m2) a (1-e^2))                                      [angular-momentum-balance]
+  both relative to the sum of the absolute terms (never below the sum of |mode terms| of the reference mode table, and never
+  below 1e-20 of the full-amplitude scale (3/2) G M^2 R^5/a^6);
+  de/dt at e = 0 is finite and equals 0, scalar and array input                                      [dedt-at-e0/*]
+  array results equal the element-wise scalar calls                                                  [array-vs-scalar]
+  bare: combined function == separate functions, dual(silent host) == single                         [combined-vs-separate]
 """
 import math
 
@@ -161,36 +165,52 @@ def _run_config(c):
             obliquities=(obl, obl) if use_obl else None, spin_frequencies=(s1, s2), eccentricity=e,
             orbital_frequency=n_, max_tidal_order_l=lmax, eccentricity_truncation_lvl=N)
 
-    def c10_defect(ex, spins, e, n_):
-        """True iff the exception is one of the two defects C10 reports (same narrow signatures)."""
+    def c10_pred(spins, e, n_):
+        """Do the inputs lie on one of the two defects C10 reports?  'lossless' | 'newton' | None (same narrow families)."""
+        if rheo in ('elastic', 'off'):
+            return 'lossless' if not any(_is_arr(x) for x in list(spins) + [n_]) else None
+        if rheo != 'newton':
+            return None
+        ee = np.atleast_1d(np.asarray(e, dtype=float))
+        nn = np.atleast_1d(np.asarray(n_, dtype=float))
+        for s_ in spins:
+            ss = np.atleast_1d(np.asarray(s_, dtype=float))
+            same = (not _is_arr(s_)) and (not _is_arr(n_)) and s_ == n_
+            for i in range(max(len(ee), len(ss), len(nn))):
+                tb = table(float(ee[i % len(ee)]))
+                w = tb.ncoef * nn[i % len(nn)] - tb.m * ss[i % len(ss)]
+                z = (w == 0.0) & ~((tb.m == 0) & (tb.ncoef == 0))
+                if same:
+                    z &= ~(tb.ncoef == tb.m)
+                if z.any():
+                    return 'newton'
+        return None
+
+    def c10_defect(ex, pred):
         t, msg = type(ex).__name__, str(ex)
-        scalar_love = not any(_is_arr(x) for x in list(spins) + [n_])
-        if t == 'ZeroDivisionError' and msg.strip() == 'division by zero' and rheo in ('elastic', 'off') and scalar_love:
-            return True
-        if t == 'ZeroDivisionError' and 'complex division by zero' in msg and rheo == 'newton':
-            ee = np.atleast_1d(np.asarray(e, dtype=float))
-            nn = np.atleast_1d(np.asarray(n_, dtype=float))
-            for s_ in spins:
-                ss = np.atleast_1d(np.asarray(s_, dtype=float))
-                same = (not _is_arr(s_)) and (not _is_arr(n_)) and s_ == n_
-                for i in range(max(len(ee), len(ss), len(nn))):
-                    tb = table(float(ee[i % len(ee)]))
-                    w = tb.ncoef * nn[i % len(nn)] - tb.m * ss[i % len(ss)]
-                    z = (w == 0.0) & ~((tb.m == 0) & (tb.ncoef == 0))
-                    if same:
-                        z &= ~(tb.ncoef == tb.m)
-                    if z.any():
-                        return True
+        if pred == 'lossless':
+            return t == 'ZeroDivisionError' and msg.strip() == 'division by zero'
+        if pred == 'newton':
+            return t == 'ZeroDivisionError' and 'complex division by zero' in msg
         return False
+
+    c10_hits = [0]
+    MAX_C10_HITS = 2        # numba leaks what was allocated before a raise (~0.1 MB per raising call): once a C10 defect has shown up
+    #                         this often in a configuration, further calls on that defect's input family are not executed
 
     def guarded(fn, form, spins, e, n_=n, mode_sum_probe=None):
         """Run the code under test.  Returns (result | None).  Exceptions: C10 defects are not admitted; a ZeroDivisionError at
         scalar e == 0 whose mode-sum part runs cleanly is the de/dt defect; everything else is a generic exception site."""
+        pred = c10_pred(spins, e, n_)
+        if pred is not None and c10_hits[0] >= MAX_C10_HITS:
+            stats['c10_defect_calls'] += 1
+            return None
         stats['calls'] += 1
         try:
             return fn()
         except Exception as ex:           # noqa: BLE001
-            if c10_defect(ex, spins, e, n_):
+            if c10_defect(ex, pred):
+                c10_hits[0] += 1
                 stats['c10_defect_calls'] += 1
                 return None
             t = type(ex).__name__
